@@ -14,7 +14,7 @@ RULE = ("cases = generated 2D plotfiles (rectangular domains, non-zero origin, n
         "one evaluation = one flatten compared bitwise with the model's covering grid. distinct = "
         "hash(model, fields, limit, mode); non-trivial = >=2 levels and a non-square domain or box")
 ASSUMPTIONS = ["generator/refparse trusted base", "pool shim M1 with shuffled schedules"]
-REQUIRED_OBS = {"flattened": 100, "calls:expand_array": 100, "parallel": 30, "with_grid_level": 30, "cli_runs": 20}
+REQUIRED_OBS = {"flattened": 100, "parallel": 30, "with_grid_level": 30, "cli_runs": 20}
 
 
 def cases(tier, seed):
